@@ -6,7 +6,9 @@
      - the pulled-back bare correctors are correctors of the chain,
      - Lvv(chain) = kfib * L(bare)      [kfib = N M^d - 1  =>  L1vv = 0 in the implementation's normalisation],
      - Lsv(chain) = - L(bare)           [=>  Lsv = -L0vv].
-   0 <= Lss is C03_nonneg (L_psd).  The upper bound Lss <= L0vv is NOT proved (partial): it is decided per case. *)
+   0 <= Lss is L_psd.  Upper bound: with the solute-site map q passing `qstructb` (solute stays on swing edges, solute and
+   vacancy swap on exchange edges), Thomson's principle with the test field (bare corrector) o q gives, for EVERY
+   direction n,  n.Lss.n <= n.L(bare).n  (C06_Lss_upper), i.e. Lss <= L0vv in the implementation's normalisation. *)
 From Coq Require Import List Arith.
 From Onsager Require Import Base.OrdRing Model.Net Model.Interstitial Model.NetMaps Model.Lump
      Proofs.Net_proofs Proofs.NetMaps_proofs Proofs.Lump_proofs.
@@ -44,6 +46,16 @@ Theorem C06_lump_value :
       Bform NX dXA dXB (fun x => gA (p x)) (fun x => gB (p x)) = kmul k (Bform NY dYA dYB gA gB).
 Proof. exact lump_value. Qed.
 
+Theorem C06_Lss_upper :
+  forall (K : ordring) dim nX nY kfib (Nsw Nex NY : net K) (p q : list nat) gam coef gS gY,
+    tracer_check dim nX nY kfib Nsw Nex NY p gam = true ->
+    qstructb Nsw Nex p q = true ->
+    nonnegb (Nsw ++ Nex) = true ->
+    weakKCL (Nsw ++ Nex) (lin dim coef (@comp K)) gS ->
+    rle K (Bform (Nsw ++ Nex) (lin dim coef (@comp K)) (lin dim coef (@comp K)) gS gS)
+          (Bform NY (lin dim coef (@comp K)) (lin dim coef (@comp K)) gY gY).
+Proof. exact tracer_upper_sound. Qed.
+
 Theorem C06_Lss_nonneg :
   forall (K : ordring) (N : net K) d g, nonneg N -> rle K (r0 K) (Bform N d d g g).
 Proof. exact L_psd. Qed.
@@ -56,3 +68,5 @@ Goal True. idtac "ASSUMPTIONS-OF C06_lump_value". Abort.
 Print Assumptions C06_lump_value.
 Goal True. idtac "ASSUMPTIONS-OF C06_Lss_nonneg". Abort.
 Print Assumptions C06_Lss_nonneg.
+Goal True. idtac "ASSUMPTIONS-OF C06_Lss_upper". Abort.
+Print Assumptions C06_Lss_upper.
